@@ -41,10 +41,13 @@ Oracle (invariants written from the statement and USB 2.0 ch. 8; no luna code):
 
 Known findings (findings/C20.md; each classifier is narrow, every other deviation keeps its own mechanism name):
  * `unsolicited_zlp_stream_from_distributed_descriptor_handler` - only on devices built with avoid_blockram=True, while the
-   current control request is a GET_DESCRIPTOR, for a run of device packets <= 5 cycles apart that contains >= 3 clean
-   zero-length data packets of the data packet generator: whatever the monitors report inside that run (unsolicited /
+   current control request is a GET_DESCRIPTOR, for a run of >= 2 short (<= 8 byte) device packets <= 5 cycles apart, each started
+   by the data packet generator, whose first packet is a clean zero-length data packet: whatever the monitors report inside that run (unsolicited /
    second packet, tx while rx_active, two transmitters, source change, CRC16) is reported once under this name, and the
-   run's packets (all but the first) do not take part in the solicitation bookkeeping of later packets;
+   run's packets (all but the first) do not take part in the solicitation bookkeeping of later packets.  "Aftermath": such
+   a stream can leave another endpoint (seen: the status endpoint) stuck in the middle of its packet with tx.valid high;
+   the next transmission of any endpoint releases its `valid & last`, which starts the same kind of stream; a run of >= 3
+   such packets containing a clean ZLP *after* a primary stream in the same session is folded into the same finding;
  * `ack_handshake_answers_status_in_of_in_request_with_wlength_0` - ACK handshake to an IN token for endpoint 0 while the
    current control request is device-to-host with wLength = 0;
  * `ack_handshake_answers_status_in_after_unfinished_control_transfer` - ACK handshake to an IN token for endpoint 0 after
@@ -359,7 +362,7 @@ def run_case(rng, tier, res):
         res.sig(items)
 
     def maybe_damage():
-        if wire_faults and rng.random() < 0.10:
+        if wire_faults and not state.get("no_damage") and rng.random() < 0.10:
             host.damage_next = True
             return True
         return False
@@ -591,21 +594,32 @@ def run_case(rng, tier, res):
         return result
 
     def op_set_address():
+        # A failed SET_ADDRESS would leave the reference model without a defined device address (C07/C08: a handler that is
+        # still in its SET_ADDRESS state takes any later host ACK - even after a bus reset - as the status stage).  So, like
+        # an enumerating host, this one first finishes a plain control transfer if it abandoned the previous one, and it
+        # does not lose packets of the SET_ADDRESS transfer itself.
+        state["no_damage"] = True
+        for _ in range(3):
+            if not ctl_state["stale"]:
+                break
+            log("CTL", "get_status (complete, before SET_ADDRESS)")
+            yield from control_tracked(U.setup_bytes(0x80, 0, 0, 0, 2))
+            yield from host.gap()
         new = rng.choice([a for a in range(1, 128) if a != host.dev_addr])
         log("SET_ADDRESS", new)
         result = yield from control_tracked(U.setup_bytes(0x00, 5, new, 0, 0))
+        state["no_damage"] = False
         if result == "done":
             host.dev_addr = new
             res.bin("address_changed")
             yield from host.idle(rng.randint(4, 30))
-        elif mode != "hs":
-            # the transfer did not complete (C08's subject): which address the device has is unknown; like a real host
-            # after a failed enumeration step, reset the port (address 0 again).  Until then nothing is sent.
-            yield from op_bus_reset()
         else:
-            # (a high-speed bus reset costs 3 ms): stop judging solicitation for the rest of this session
+            # the transfer did not complete (C08's subject): the device may take the new address now, later or never ->
+            # stop judging solicitation for the rest of this session
             state["addr_unknown_from"] = b.cycle
             res.unjudged += 1
+            if mode != "hs":
+                yield from op_bus_reset()
 
     def op_bulk_in():
         n = rng.choice(sorted(ep_in))
@@ -783,8 +797,8 @@ def run_case(rng, tier, res):
             viol(b.cycle, "packet_never_ends", "tx_valid high from cycle %d to the end of the session (%d bytes accepted)" % (cur["first_valid"], len(cur["data"])))
 
     # ------------------------------------------------------------------ classifier for the known finding (findings/C20.md)
-    # "ZLP stream": a run of device packets that follow each other within <= 5 cycles (no host can solicit that) and contains
-    # >= 3 clean zero-length data packets from the data packet generator, on a device whose standard request handler uses
+    # "ZLP stream": a run of >= 2 short device packets that follow each other within <= 5 cycles (no host can solicit that),
+    # each started by the data packet generator, the first one a clean zero-length data packet, on a device whose standard request handler uses
     # the distributed (avoid_blockram) descriptor generator, while the current control request is a GET_DESCRIPTOR.
     # Everything the monitors report inside such a stream is reported once, under one mechanism name; everything else
     # keeps its name.
@@ -798,23 +812,35 @@ def run_case(rng, tier, res):
         # (with two transmitters valid the one-hot multiplexer outputs neither's data, so the bytes may be anything)
         return len(d) <= 8 and p["src"][1] == 1
 
-    streams = []
+    # runs: maximal sequences of non-chirp packets <= 5 cycles apart whose members after the first are short packets started
+    # by the data packet generator (the first one is whatever legitimately preceded them)
+    runs = []
     run = []
     for p in [q for q in dpk if not q["src"][0]] + [None]:
-        if p is not None and zlp_like(p) and (not run or p["first_valid"] - run[-1]["end"] <= 5):
+        if p is not None and run and zlp_like(p) and p["first_valid"] - run[-1]["end"] <= 5:
             run.append(p)
             continue
-        if sum(1 for q in run if clean_zlp(q)) >= 3:
-            streams.append((run[0]["first_valid"], run[-1]["end"] + 4, len(run)))
-        run = [p] if p is not None and zlp_like(p) else []
+        if len(run) >= 2:
+            runs.append(run)
+        run = [p] if p is not None else []
     known_streams = []
-    for s0, s1, n in streams:
+    primary_seen = False
+    for run in runs:
+        s0, s1 = run[0]["first_valid"], run[-1]["end"] + 4
         ctx = None
         for c in ctl_log:
             if c[0] <= s0:
                 ctx = c
-        if avoid_blockram and ctx is not None and ctx[1][0] == 0x80 and ctx[1][1] == 6:
-            known_streams.append((s0, s1, n, ctx))
+        # primary: the first packet is the solicited ZLP that ends a GET_DESCRIPTOR data stage on an avoid_blockram device
+        # (the host's packets disturb the shared CRC unit, so the later ZLPs may be garbled)
+        primary = avoid_blockram and ctx is not None and ctx[1][0] == 0x80 and ctx[1][1] == 6 and clean_zlp(run[0])
+        # aftermath: a primary stream earlier in this session can leave another endpoint stuck in the middle of its packet
+        # (it lost the arbitration for the shared data packet generator); the next transmission of anybody then releases
+        # its `valid & last`, which starts the same kind of stream without any GET_DESCRIPTOR
+        aftermath = primary_seen and len(run) >= 3 and any(clean_zlp(q) for q in run[1:])
+        if primary or aftermath:
+            known_streams.append((s0, s1, len(run), ctx if ctx is not None else (0, b"", False), "primary" if primary else "aftermath"))
+            primary_seen = primary_seen or primary
 
     # ------------------------------------------------------------------ judge the packets
     hlog = host.hlog
@@ -1006,9 +1032,9 @@ def run_case(rng, tier, res):
                 reported.add(k[0])
                 inside = sorted({m for c, m, d in raw if k[0] <= c <= k[1]})
                 res.violation("unsolicited_zlp_stream_from_distributed_descriptor_handler",
-                              "GET_DESCRIPTOR %s (avoid_blockram): after the IN that follows the last full packet the device sends %d zero-length data packets "
+                              "(%s) control request %s (avoid_blockram): after a solicited packet the device sends %d more (zero-length) data packets "
                               "back to back in cycles %d..%d without further IN tokens; monitors inside the stream: %s; first: %s"
-                              % (k[3][1].hex(), k[2], k[0], k[1], inside, detail))
+                              % (k[4], k[3][1].hex(), k[2] - 1, k[0], k[1], inside, detail))
             continue
         res.violation(mech, detail)
 
